@@ -760,22 +760,29 @@ def strip_prog(prog):
 class C28(Prop):
     id = 'C28'
     title = 'Inlining preserves program behaviour'
-    model_modules = ['LokiModel.C28.Model', 'LokiModel.C28.Enc']
+    model_modules = ['LokiModel.C28.Model', 'LokiModel.C28.ParamModel', 'LokiModel.C28.Enc']
     props_module = 'LokiModel.Props.C28'
     findings_module = 'LokiModel.Findings.C28'
     driver = 'Drivers/C28.lean'
-    theorems = ['substM_evalE', 'param_inline_expr_sound']
+    theorems = ['inline_sound_partial', 'inline_body_sim_partial', 'param_inline_stmts_sound', 'param_inline_stmts_sound\'',
+                'substM_evalE', 'param_inline_expr_sound']
     design_ref = 'DESIGN.md 4.F C28'
     level = 'proof'
-    level_text = ('Proved in Lean (unbounded): substM_evalE — substitution lemma for the dummy->actual map of map_call_to_procedure_body '
-                  '(under the simulation relation ReadsLike between callee frame and caller state every scalar expression evaluates like '
-                  'its substituted form); param_inline_expr_sound — replacing a PARAMETER name by its value preserves every expression '
-                  'value.  NOT proved: the statement-level theorem inline_sound_partial (body simulation, copy-in/copy-out); '
-                  'statement-level behaviour preservation is covered by the correspondence with the Lean model of the transformation on '
-                  'the Covered class plus the direct oracle (interpreter; gfortran in the thorough tier).  Array dummies, constant '
-                  'parameters at statement level and function inlining: direct oracle only.')
+    level_text = ('Proved in Lean (unbounded, all programs of the covered class / states / fuel): '
+                  'inline_sound_partial — a finished FIR call (copy-in/copy-out) is reproduced, with the same fuel, by the inlined body '
+                  'inlineBody u args run in the caller state: same output, same final cells of all variables except the callee locals; '
+                  'hypotheses are two computable checks: callOKb (scalar-only callee, body of scalar assignments/DO/DO WHILE/IF/SELECT/'
+                  'EXIT/CYCLE, written dummies bound to distinct variables occurring in no other actual, no capture, local names unused by '
+                  'actuals, intents) and callStb (caller state typed at the actuals, hoisted locals present); '
+                  'inline_body_sim_partial — the underlying simulation for any substitution map; '
+                  'param_inline_stmts_sound(\') — replacing an integer PARAMETER by its literal preserves execStmts (reuse of the C31 '
+                  'substitution simulation; PRINT mentioning the name excluded); substM_evalE, param_inline_expr_sound (expression level). '
+                  '_partial: no PRINT / nested CALL / ASSOCIATE / array dummies / element actuals / renamed locals in the theorem; the '
+                  'congruence lifting to the rest of the caller is not proved; only finished runs are matched.  Those parts, real and '
+                  'logical PARAMETERs at statement level and function inlining are covered by correspondence + direct oracle.')
     level_note = ('The Lean model inlineProgram follows inline_subroutine_calls/map_call_to_procedure_body for callees with scalar '
-                  'declarations (class Covered); array dummies (_map_unbound_dims) are NOT modelled: direct oracle + python-side '
+                  'declarations (class Covered); inline_sound_partial is about inlineBody, the list this model (and, by correspondence, the '
+                  'real code) puts in place of the call; array dummies (_map_unbound_dims) are NOT modelled: direct oracle + python-side '
                   'known classes only.  Class predicates over-approximate the failing families.')
     technique = 'Lean 4 theorems about a hand-written model of the transformation on FIR programs + correspondence with the real code'
     rule = ('cases: generated caller/callee pairs with scalar dummies (own generator with placed hazards), fir.gen_program programs '
